@@ -48,8 +48,14 @@ def goals(topo, slot, getv):
 def work(item):
     tj, symtype, compact, seed, timeout_ms = item[:5]
     hist = item[5] if len(item) > 5 else "fresh"
+    rename = None
+    if hist == "same-names":
+        # distinct elements that share a name (validation accepts them): every flow must still be reported, in element order
+        hist = "fresh"
+        rename = lambda s_: ({"L": "seg", "O": "od", "D": "od"}.get(s_[0], s_) if s_ not in topo_nodes else s_)
     builder = netcheck.history_builders()[hist]
     topo = T_.Topo.from_json(tj)
+    topo_nodes = set(topo.nodes)
     rng = random.Random(seed)
     tag = f"{symtype}/c{compact}"
     acc = netcheck.Acc(f"{topo.name}:{tag}")
@@ -57,7 +63,7 @@ def work(item):
     numeric = netcheck.casadi_numeric_for(topo)
     D = [netcheck.apply_numeric(c, numeric) for c in ref_metanet.admissible_domain(topo)]
     try:
-        c = compiled.compile_terms(topo, symtype, numeric, compact, True, builder=builder)
+        c = compiled.compile_terms(topo, symtype, numeric, compact, True, builder=builder, rename=rename)
     except compiled.LayoutMismatch as e:
         acc.exec_violation(PID, topo, f"casadi[{tag}]", "array", f"layout: {e}", extra={"numeric": numeric, "compact": compact, "more_out": True})
         return acc.done()
@@ -144,8 +150,8 @@ def main():
                     items.append((t.to_json(), st, c, args.seed + k, timeout))
     for k, t in enumerate(topos):
         # the same identities on networks that were stepped before and then had their attachments / links replaced
-        hs = ["decoy-attachments-replaced", "decoy-links-replaced", "reads-interleaved"]
-        for h in (hs if args.thorough else [hs[k % 3]]):
+        hs = ["decoy-attachments-replaced", "decoy-links-replaced", "reads-interleaved", "same-names"]
+        for h in (hs if args.thorough else [hs[k % 3], "same-names"]):
             items.append((t.to_json(), ("SX", "MX")[k % 2], k % 3, args.seed + k, timeout, h))
     if args.thorough:
         for k, t in enumerate(families.E(3, 4) + families.random_topos(args.seed, 30)):
